@@ -30,6 +30,11 @@ class Undecided(AnalysisError):
         self.atom, self.split = atom, split
 
 
+class _Refine(Undecided):
+    """an Undecided that is meant to reach explore() (not to be absorbed into an opaque function application)"""
+
+
+_exploring = [0]
 _alpha = [None]
 
 
@@ -242,7 +247,8 @@ class SStr:
         raise Undecided('%s is not determined for the case %r' % (what, self), atom, split)
 
     def _preimage(self, lang_true):
-        """(atom, language of the atom's values for which the term is in lang_true) when the term depends on one atom"""
+        """(atom, language of the atom's values for which the term is in lang_true) when the term depends on one atom -- through
+        literal context and nested strip / first / rest / init / last"""
         sym = [p for p in self.parts if not isinstance(p, str)]
         if len(sym) != 1:
             return None, None
@@ -256,29 +262,29 @@ class SStr:
             return None, None
         if isinstance(p, Atom):
             return p, inner
-        if isinstance(p, Fn) and p.name in ('strip', 'lstrip', 'rstrip') and len(p.arg.parts) == 1 and isinstance(p.arg.parts[0], Atom):
+        if isinstance(p, Fn) and p.name in ('strip', 'lstrip', 'rstrip'):
             cs = ws_chars() if not p.extra else p.extra[0]
             cls_ = '[' + ''.join(re.escape(ch) for ch in cs) + ']'
             left = p.name in ('strip', 'lstrip')
             right = p.name in ('strip', 'rstrip')
             core = inner
             if left:
-                core = core.minus(L(cls_ + '.*'))
+                core = core.minus(L('(?s:' + cls_ + '.*)'))
             if right:
-                core = core.minus(L('.*' + cls_))
+                core = core.minus(L('(?s:.*' + cls_ + ')'))
             pad = L(cls_ + '*')
             out = core
             if left:
                 out = rx.concat(pad, out)
             if right:
                 out = rx.concat(out, pad)
-            return p.arg.parts[0], out
-        if isinstance(p, Fn) and p.name in ('first', 'rest', 'init', 'last') and len(p.arg.parts) == 1 and isinstance(p.arg.parts[0], Atom):
-            anyc = L('.')
-            anys = L('.*')
+            return p.arg._preimage(out)
+        if isinstance(p, Fn) and p.name in ('first', 'rest', 'init', 'last'):
+            anyc = L('(?s:.)')
+            anys = L('(?s:.*)')
             out = {'first': lambda: rx.concat(inner.intersect(anyc), anys), 'last': lambda: rx.concat(anys, inner.intersect(anyc)),
                    'rest': lambda: rx.concat(anyc, inner), 'init': lambda: rx.concat(inner, anyc)}[p.name]()
-            return p.arg.parts[0], out
+            return p.arg._preimage(out)
         return None, None
 
     def truth(self):
@@ -553,6 +559,10 @@ class SStr:
                 if p.lang.intersect(edge).is_empty() and len(parts) == 1:
                     return
                 if not p.lang.intersect(only).is_empty():
+                    if _exploring[0] and isinstance(p, Atom) and len(parts) > 1:
+                        # under explore(): the case is split on "the piece consists of stripped characters only", which keeps the
+                        # structure of the rest of the term in both sub-cases
+                        raise _Refine('%s: the piece %r may consist of stripped characters only' % (name, p), p, only)
                     raise Undecided('%s: the piece %r may consist of stripped characters only' % (name, p))
                 img = p.lang
                 if from_right:
@@ -567,6 +577,8 @@ class SStr:
                 peel(True)
             if left:
                 peel(False)
+        except _Refine as r_:
+            raise Undecided(str(r_), r_.atom, r_.split)
         except Undecided:
             # opaque application to the whole term (always sound; structure is lost)
             img = self.lang()
@@ -818,7 +830,12 @@ def explore(atoms, body, depth=8):
     def go(langs, d):
         cur = {n: atom(n, l_) for n, l_ in langs.items()}
         try:
-            out.append((dict(langs), body(cur)))
+            _exploring[0] += 1
+            try:
+                r_ = body(cur)
+            finally:
+                _exploring[0] -= 1
+            out.append((dict(langs), r_))
             return
         except Undecided as u:
             if u.atom is None or u.atom.name not in langs or d <= 0:
